@@ -388,8 +388,16 @@ impl<'a> FormatFields<'a> for JsonFields {
         // then, we could store fields as JSON values, and add to them
         // without having to parse and re-serialize.
         let mut new = String::new();
-        let map: BTreeMap<&'_ str, serde_json::Value> =
+        // The keys are deserialized as owned strings: a field name that
+        // needed escaping when it was serialized (a quote, a backslash, a
+        // control character) cannot be borrowed from `current`, and failing
+        // here would silently drop the newly recorded fields.
+        let owned: BTreeMap<String, serde_json::Value> =
             serde_json::from_str(current).map_err(|_| fmt::Error)?;
+        let map: BTreeMap<&'_ str, serde_json::Value> = owned
+            .iter()
+            .map(|(name, value)| (name.as_str(), value.clone()))
+            .collect();
         let mut v = JsonVisitor::new(&mut new);
         v.values = map;
         fields.record(&mut v);
